@@ -10,6 +10,9 @@ import (
 	_ "go.nanomsg.org/mangos/v3/vh/c07"
 	_ "go.nanomsg.org/mangos/v3/vh/c08"
 	_ "go.nanomsg.org/mangos/v3/vh/c09"
+	_ "go.nanomsg.org/mangos/v3/vh/c13"
+	_ "go.nanomsg.org/mangos/v3/vh/c14"
+	_ "go.nanomsg.org/mangos/v3/vh/c18"
 	"go.nanomsg.org/mangos/v3/vz/vexplore"
 )
 
